@@ -518,9 +518,7 @@ func (r *Run) CollectRaceLogs() (blocks int) {
 				for _, ln := range strings.Split(st, "\n") {
 					ln = strings.TrimSpace(ln)
 					if strings.HasPrefix(ln, "github.com/wneessen/go-mail") {
-						if i := strings.Index(ln, "("); i > 0 {
-							ln = ln[:i]
-						}
+						ln = strings.TrimSuffix(ln, "()")
 						fns = append(fns, ln)
 						break
 					}
